@@ -2,7 +2,7 @@
 L3 publish before forward / L4 forwarding retry / L5 CAS-failure keeps the entry (ESP, shared with C04-O3) / L6 facade conformance."""
 from .affine import evaluator, TOP
 from .analysis import flow, regions, cond_of, dominated_by_edge, reach, Point, after, dominates, held_regions_at
-from .anchors import anchors, callee_str, is_shared_write, is_link_load, receiver_field, is_reclaim_atomic
+from .anchors import anchors, callee_str, is_shared_write, is_link_load, receiver_field, is_reclaim_atomic, is_fresh_alloc
 from .callgraph import callgraph
 from .facts import op_root, op_local, strip_generics
 from .protocol import validated_regions, mutations, bin_lock_region, user_closure_call
@@ -108,7 +108,8 @@ def transitive_params(body, local, limit=400):
             elif r[0] == "call":
                 c = body.call_at(r[1])
                 s = callee_str(c)
-                if any(s.endswith(p) for p in ("Shared::boxed", "Shared::null", "TreeNode::new", "Node::new", "Node::with_next", "Atomic::null", "Atomic::from")):
+                if any(s.endswith(p) for p in ("Shared::boxed", "Shared::null", "TreeNode::new", "Node::new", "Node::with_next", "Atomic::null", "Atomic::from")) \
+                        or is_fresh_alloc(body, c):
                     continue
                 for a in c.args:
                     ar = op_root(a)
@@ -121,7 +122,7 @@ def transitive_params(body, local, limit=400):
     return params, other
 
 
-def rule_l2(ctx, facts):
+def rule_l2(ctx, facts, rule="L2"):
     an = anchors(facts)
     cg = callgraph(facts)
     needs_lock = {}   # body id -> first lifted write
@@ -144,10 +145,10 @@ def rule_l2(ctx, facts):
             what = "%s %s" % (w[1], "/".join(sorted(x[1] for x in f)) or "bin slot")
             held = [r for r in held_regions_at(b, c.point) if bin_lock_region(r)]
             if held:
-                ctx.inst("L2", b, what, c.span, True, "inside the bin-lock region opened at %s" % held[0].call.span)
+                ctx.inst(rule, b, what, c.span, True, "inside the bin-lock region opened at %s" % held[0].call.span)
                 continue
             if teardown:
-                ctx.inst("L2", b, what, c.span, True, "teardown: exclusive access", nontrivial=False)
+                ctx.inst(rule, b, what, c.span, True, "teardown: exclusive access", nontrivial=False)
                 continue
             if w[1] == "cas_bin":
                 exp = op_root(c.args[2])
@@ -162,21 +163,21 @@ def rule_l2(ctx, facts):
                             cd = cond_of(b, blk)
                             if cd and cd["kind"] == "is_null" and cd["arg"] in fl.copies_of(exp) and dominated_by_edge(b, c.point, [(blk, cd["true"])]):
                                 ok = True
-                ctx.inst("L2", b, what, c.span, ok, "lock-free form: CAS of an empty bin (expected value is null)" if ok else
+                ctx.inst(rule, b, what, c.span, ok, "lock-free form: CAS of an empty bin (expected value is null)" if ok else
                          "cas_bin outside a bin lock with an expected value that is not known to be null")
                 continue
             tl = op_root(c.args[0])
             bad = private_roots(b, tl) if tl is not None else ["?"]
             if not bad:
-                ctx.inst("L2", b, what, c.span, True, "target is private to this body (fresh node)")
+                ctx.inst(rule, b, what, c.span, True, "target is private to this body (fresh node)")
                 continue
             params, other = transitive_params(b, tl)
             if params and not other and all(b.ty(k).get("base") in NODE_LEVEL for k in params):
                 # a helper that restructures the nodes it is handed: judged where it is called
                 needs_lock.setdefault(b.id, (c, what))
-                ctx.inst("L2", b, what, c.span, True, "helper writing nodes reached from its parameters; lifted to its call sites", nontrivial=False)
+                ctx.inst(rule, b, what, c.span, True, "helper writing nodes reached from its parameters; lifted to its call sites", nontrivial=False)
                 continue
-            ctx.inst("L2", b, what, c.span, False, "write to bin contents outside any bin-lock region (target derives from %s)" % "; ".join(bad)[:200])
+            ctx.inst(rule, b, what, c.span, False, "write to bin contents outside any bin-lock region (target derives from %s)" % "; ".join(bad)[:200])
     # lifted functions: judged at their call sites, transitively
     changed = True
     judged = set()
@@ -195,14 +196,14 @@ def rule_l2(ctx, facts):
                 held = [r for r in held_regions_at(g, via.point) if bin_lock_region(r)]
                 what = "call of %s" % strip_generics(fid).rsplit("::", 1)[-1]
                 if held:
-                    ctx.inst("L2", g, what, via.span, True, "tree/list restructuring helper called inside the bin-lock region opened at %s" % held[0].call.span)
+                    ctx.inst(rule, g, what, via.span, True, "tree/list restructuring helper called inside the bin-lock region opened at %s" % held[0].call.span)
                 elif caller_id in needs_lock or caller_id == fid:
-                    ctx.inst("L2", g, what, via.span, True, "caller is itself a write-locked helper (lifted further)", nontrivial=False)
+                    ctx.inst(rule, g, what, via.span, True, "caller is itself a write-locked helper (lifted further)", nontrivial=False)
                 else:
                     # private arguments (TreeBin::new on a fresh list)?
                     priv = all(not private_roots(g, op_root(a)) for a in via.args if op_root(a) is not None and g.ty(op_root(a))["base"] == "reclaim::Shared")
                     if priv and any(g.ty(op_root(a))["base"] == "reclaim::Shared" for a in via.args if op_root(a) is not None):
-                        ctx.inst("L2", g, what, via.span, True, "operates on a private list")
+                        ctx.inst(rule, g, what, via.span, True, "operates on a private list")
                     else:
                         # does the caller write its own parameters only? then lift again
                         gfl = flow(g)
@@ -211,9 +212,9 @@ def rule_l2(ctx, facts):
                         if param_driven and g.id not in needs_lock and not g.exported:
                             needs_lock[g.id] = (via, what)
                             changed = True
-                            ctx.inst("L2", g, what, via.span, True, "helper working on its parameters (lifted to its callers)", nontrivial=False)
+                            ctx.inst(rule, g, what, via.span, True, "helper working on its parameters (lifted to its callers)", nontrivial=False)
                         else:
-                            ctx.inst("L2", g, what, via.span, False, "%s mutates bin contents but is called outside any bin-lock region" % strip_generics(fid))
+                            ctx.inst(rule, g, what, via.span, False, "%s mutates bin contents but is called outside any bin-lock region" % strip_generics(fid))
 
 
 def rule_l3(ctx, facts):
